@@ -130,6 +130,23 @@ CLAIMED = {
 }
 NA_REASON = "check not built yet (work in progress; see DESIGN.md section 5)"
 
+# what later rounds added to a check (appended to its text)
+ADDENDA = {
+    "C03": " Scenario replicated: a 2-node cluster, the writer on the primary, the subscribers are sessions of the secondary and must hear every accepted write once as a replicated write. Increment notifications must carry pairwise distinct totals and a covering subscription hears the final total.",
+    "C06": " One restart in three is a clean one with a snapshot in flight (snapshot request, background run released, SIGINT at once): the shutdown must complete the snapshot. Database names share a prefix (d, d2).",
+    "C08": " Half of the cases run the low session over the real TCP / WebSocket / HTTP front ends (HTTP: one request per command; in some cases the administrator's steps are HTTP requests served by the same workers).",
+    "C09": " Scenario transport-sessions: 2-6 sessions one after the other over the real TCP / WebSocket / HTTP front ends, each judged by its own login only. Command SetWithLineFeed: a permitted write whose value carries a line feed and an administrative replication command must leave the secure key unchanged on every node.",
+    "C10": " Database-name lists include lists with an unknown name in front (nosuch|q).",
+    "C12": " What declutter retains must be the newest records (a contiguous suffix of what was there).",
+    "C13": " One write per program may carry the value the keys start with (it must queue behind a pending conflict like any other).",
+    "C14": " A quarter of the 3-node clusters are judged after a fail-over (first primary killed, the oldest survivor -- first known to the others as a secondary -- has taken over, 3 x timeout + 0.5 s of silence awaited); the writes that set a conflict up are judged as operations; runs are cut at 256 MB of inter-node traffic.",
+    "C16": " A third of the histories arm a kill 1-4 mutating disk calls ahead of one of their writes (the window between key-id registration, flag update and oplog append).",
+    "C19": " Scenario legacy: a database created with any strategy, persisted, the node stopped (kill or SIGINT), its metadata file absent from the data directory, restarted -- it must behave as newer. A quarter of the cases first register an arbiter / `watch $conflicts` session on the database (staying or gone).",
+    "C20": " In half of the cases 1-4 HTTP requests of other clients (against another database set) are served by the same four workers before the judged request.",
+}
+for k, v in ADDENDA.items():
+    CLAIMED[k]["text"] += v
+
 checks = []
 for i in ids:
     if i in CLAIMED:
